@@ -1083,6 +1083,21 @@ pub fn k_c01_entry_points_playback() {
 }
 
 #[kani::proof]
+#[kani::unwind(9)]
+#[kani::stub(<ckc_rs::cards::five::Five as ckc_rs::cards::HandRanker>::hand_rank_value_and_hand, crate::stubs::five_vh_fixed)]
+pub fn k_c04_validated_five() {
+    crate::ob::c01::validated_five(&mut KaniSrc);
+}
+
+#[kani::proof]
+#[kani::unwind(9)]
+#[kani::stub(<ckc_rs::cards::five::Five as ckc_rs::cards::HandRanker>::hand_rank_value_and_hand, crate::stubs::five_vh_fixed)]
+pub fn k_c04_validated_five_playback() {
+    unsafe { crate::src::REACH_OFF = true; }
+    crate::ob::c01::validated_five(&mut KaniSrc);
+}
+
+#[kani::proof]
 #[kani::unwind(15)]
 pub fn k_c01_direct_flush() {
     crate::ob::c01::direct_flush(&mut KaniSrc);
